@@ -435,6 +435,42 @@ class HostCase:
             return
         ctx.case((self.kind, 'raising_callback', how), {'how': how})
 
+    def step_bad_burst(self):
+        """Several bad messages in a row, nothing valid between them: the
+        listener is still there for what follows."""
+        rng, r, ctx = self.rng, self.r, self.ctx
+        n = rng.randint(3, 7)
+        kinds = []
+        for _ in range(n):
+            cls, raw = gen_bad(rng, self.mgr.host_id, self.sids)
+            if cls.startswith('own_echo') or 'callback' in cls:
+                continue
+            kinds.append(cls)
+            if rng.random() < 0.3:
+                self.mgr.listen_faults.add(-1)
+                kinds[-1] += '+listen_fault'
+            self.push(raw)
+            if self.listener_dead:
+                return self.fail('the listener stopped during a run of bad '
+                                 'messages (%s)' % ', '.join(kinds))
+        self.history.append(['bad_burst', kinds])
+        ctx.count('bad_message_bursts')
+        r.d.clear_errors()
+        for t in r.T.values():
+            t.drain()
+        # a disconnect from another host may legitimately have removed a
+        # local client; keep our view in sync
+        for key in list(r.issued):
+            lst = r.issued[key]
+            if not r.sio.manager.is_connected(lst[-1], key[1]):
+                del r.issued[key]
+        if not r.issued:
+            return 'empty'
+        if not self.sentinel('after %d bad messages in a row (%s)' % (
+                len(kinds), ', '.join(kinds))):
+            return
+        ctx.case((self.kind, 'bad_burst', len(kinds)), None)
+
     def step_emit_with_failing_send(self):
         """A valid emit from another host whose delivery to the local
         recipients fails inside the transport layer (an error, or - asyncio -
@@ -512,6 +548,11 @@ class HostCase:
             if self.rng.random() < 0.06:
                 self.step_raising_callback()
                 if self.failed:
+                    return
+                continue
+            if self.rng.random() < 0.05:
+                st = self.step_bad_burst()
+                if self.failed or st == 'empty':
                     return
                 continue
             if self.rng.random() < 0.06:
